@@ -1,0 +1,42 @@
+#ifndef KALIGN_VERIF_H
+#define KALIGN_VERIF_H
+
+/* Verification hooks. Compiled in only with -DKALIGN_VERIF; without it every
+   KV_EVENT() expands to a no-op and nothing else in this header is visible. */
+
+#ifdef KALIGN_VERIF
+
+#define KV_RUN_BEGIN 1          /* kalign_run entered:              p = msa */
+#define KV_TREE 2               /* guide tree built:                a = n_tasks, p = aln_tasks, q = msa */
+#define KV_PARAMS 3             /* parameters chosen:               p = aln_param, q = msa */
+#define KV_RUN_END 4            /* kalign_run about to return OK:   p = msa */
+#define KV_MERGE_BEGIN 10       /* do_align: a,b,c = node ids,      p = msa, q = aln_tasks */
+#define KV_MERGE_DP_DONE 11
+#define KV_MERGE_PATH_DONE 12
+#define KV_MERGE_END 13         /* node c complete (after make_seq and member list update) */
+#define KV_FWD_BEGIN 20         /* p = aln_mem */
+#define KV_FWD_END 21
+#define KV_BWD_BEGIN 22
+#define KV_BWD_END 23
+#define KV_MEETUP_BEGIN 24
+#define KV_MEETUP_END 25
+#define KV_SPLIT_BEGIN 30       /* a = seed_pick, b = num_samples,  p = samples */
+#define KV_SPLIT_ITER 31
+#define KV_SPLIT_END 32
+#define KV_DM_CELL 40           /* a = i, b = j */
+
+extern void (*kalign_verif_hook)(int ev, int a, int b, int c, const void* p, const void* q);
+
+#define KV_EVENT(ev,a,b,c,p,q) do{                                      \
+                if(kalign_verif_hook){                                  \
+                        kalign_verif_hook((ev),(a),(b),(c),(p),(q));    \
+                }                                                       \
+        }while(0)
+
+#else
+
+#define KV_EVENT(ev,a,b,c,p,q) ((void)0)
+
+#endif
+
+#endif
